@@ -428,6 +428,26 @@ func recordFinding(sum *coqout.Summary, key, what string, c Case, sig sigState, 
 	sum.Extra["finding_rules"] = findingRules
 }
 
+// smallValueCapClass is the histogram key telling, for a case with a small
+// value capacity, whether a proper-prefix key pair ever existed and whether
+// the case failed.
+func smallValueCapClass(c Case, sig sigState, failed bool) (string, bool) {
+	if !c.isDB() || c.ValueCap == 0 || c.ValueCap >= 16777216 {
+		return "", false
+	}
+	k, p := "never_prefix_pair", sig.hadPrefix
+	if failed {
+		p = sig.failPrefix
+	}
+	if p {
+		k = "had_prefix_pair"
+	}
+	if failed {
+		return k + "/failed", true
+	}
+	return k + "/clean", true
+}
+
 // counts collects histogram increments of one case.
 type counts map[string]map[string]int
 
